@@ -47,12 +47,12 @@ PLAN = {
             "thorough": [e2(9, 16), e1(240000, kinds=ALL_KINDS, profiles=["full_store", "mixed", "burst", "prio_storm"]), e3(20000)]},
     "C02": {"quick": [e2(7, 4), e1(16000, kinds=ALL_KINDS, profiles=["hoarder", "mixed", "burst"])],
             "thorough": [e2(9, 16), e1(240000, kinds=ALL_KINDS, profiles=["hoarder", "mixed", "burst"]), e3(20000)]},
-    "C04": {"quick": [e2(7, 4), e1(16000)], "thorough": [e2(9, 16), e1(240000), e3(20000)]},
+    "C04": {"quick": [e2(7, 4), e1(16000), e3(2000)], "thorough": [e2(9, 16), e1(240000), e3(20000)]},
     "C05": {"quick": [e2(7, 4), e1(16000, profiles=["prio_storm", "full_store", "hoarder"]), {"engine": "E1p", "params": {}, "cases": 12000},
                       {"engine": "E2p", "params": {}, "cases": 8736}],
             "thorough": [e2(9, 16), e1(200000, profiles=["prio_storm", "full_store", "hoarder"]), {"engine": "E1p", "params": {}, "cases": 160000},
                          {"engine": "E2p", "params": {}, "cases": 8736}]},
-    "C06": {"quick": [e2(7, 4), e1(16000, profiles=["hoarder", "mixed"])],
+    "C06": {"quick": [e2(7, 4), e1(16000, profiles=["hoarder", "mixed"]), e3(2000, templates=["fanin", "multisink", "diamond", "line"])],
             "thorough": [e2(9, 16), e1(240000, profiles=["hoarder", "mixed"]), e3(20000)]},
     "C07": {"quick": [e2(6, 4, illformed=True), e1(12000, kinds=ALL_KINDS, illformed=0.08)],
             "thorough": [e2(8, 16, illformed=True), e1(160000, kinds=ALL_KINDS, illformed=0.08)]},
